@@ -148,7 +148,7 @@ class Problem:
 
     def solve(self, solver=None, **kw):
         ctx = Ctx.cur
-        rec = dict(solver=solver, problem=self)
+        rec = dict(solver=solver, problem=self, options=dict(kw))
         STATE.problems.append(rec)
         if STATE.fail_next:
             exc = STATE.fail_next.pop(0)
